@@ -122,6 +122,9 @@ fn main() {
                     let mut x = seed.wrapping_mul(0x9E37_79B9_7F4A_7C15) | 1;
                     cfg.first_inputs = (0..64).map(|_| { x ^= x << 13; x ^= x >> 7; x ^= x << 17; (x % 7) as i64 - 3 }).collect();
                     i += 2;
+                } else if a == "--max-violations" {
+                    cfg.max_violations = args[i + 1].parse().unwrap();
+                    i += 2;
                 } else if a == "--witnesses" {
                     cfg.n_witnesses = args[i + 1].parse().unwrap();
                     i += 2;
